@@ -43,7 +43,7 @@ func TestC14(t *testing.T) {
 	rec := mon.New("C14", "exploration",
 		"(a) status triples: for each client type a client state + newest consensus state with generated (timestamp, trusting period) is stored in a real client store and Status() is evaluated at block times around the expiry boundary with every kind of sub-second part; compared with the reference in the client's own unit (age == period not judged). "+
 			"(b) on real chains: after the clock passed the trusting period of a Tendermint client, header updates, receives, acknowledgements and receive-cleans proven through it (with genuine, otherwise acceptable proofs) must be refused, and must be accepted again inside the period. distinct = distinct (client type, boundary case, sub-second class) resp. (message kind, expired?) tuples")
-	rec.Require("status/007-tendermint", "status/008-bsc", "status/009-eth", "expired-msg", "active-msg")
+	rec.Require("status/007-tendermint", "status/008-bsc", "status/009-eth", "expired-msg", "active-msg", "expired-relayed-msg")
 	seed := mon.Seed()
 	n := mon.Scale(12_000, 600_000)
 	var wg sync.WaitGroup
@@ -167,13 +167,141 @@ func TestC14(t *testing.T) {
 		w := world.New(fmt.Sprintf("exp%d", i), net, rng)
 		return w, func() { expiredScenario(w, rng, rec) }
 	})
+	// (b') the same through a relay chain: A - B - C in a line (C has no client of A at all). A packet A->C via B is
+	// proven to C through C's client of B, its acknowledgement to A through A's client of B
+	histories(rec, mon.Scale(6, 120), func(i int, rng *rand.Rand) (*world.World, func()) {
+		net := vnet.New(seed*104759+int64(i), rng, world.ChainNames[:3], 2, 4)
+		net.Connect(net.Chains[0], net.Chains[1])
+		net.Connect(net.Chains[1], net.Chains[2])
+		net.SetRules(net.Chains[1], []string{"*,*,*"})
+		w := world.New(fmt.Sprintf("exprelay%d", i), net, rng)
+		return w, func() { expiredRelayScenario(w, rng, rec) }
+	})
 	// (c) BSC / ETH clients on the packet path: a genuine Merkle-Patricia proof through an active client is accepted,
 	// the same kind of proof through an expired client is refused
 	rec.Require("ethlike-active-accepted", "ethlike-expired-refused")
 	for i := 0; i < mon.Scale(6, 60); i++ {
 		ethLikeExpired(rec, rand.New(rand.NewSource(seed*977+int64(i))), seed*977+int64(i))
 	}
+	// (d) header updates of BSC / ETH clients around the expiry point: accepted while the newest state is inside the
+	// trusting period, refused once it is older, also when it is only seconds older and the offered header itself is recent
+	rec.Require("ethlike-update-active-accepted", "ethlike-update-expired-refused")
+	ethtypes.VerifSkipSeal = true // synthetic ETH headers: only the ethash computation is skipped (hook H2)
+	for i := 0; i < mon.Scale(8, 80); i++ {
+		ethLikeUpdateExpiry(rec, rand.New(rand.NewSource(seed*1009+int64(i))), seed*1009+int64(i))
+	}
+	ethtypes.VerifSkipSeal = false
 	setExit(rec.Finish())
+}
+
+// ethLikeUpdateExpiry: see (d) in TestC14.
+func ethLikeUpdateExpiry(rec *mon.Recorder, rng *rand.Rand, seed int64) {
+	net := vnet.New(seed, rng, []string{"alphachain"}, 1, 2)
+	X := net.Chains[0]
+	ck := X.App.TIBCKeeper.ClientKeeper
+	bf, err := newBscFeed(X, rng, seed, "bsc-expiry")
+	if err != nil {
+		rec.Inconclusive(err.Error())
+		return
+	}
+	ef, err := newEthFeed(X, rng, "eth-expiry")
+	if err != nil {
+		rec.Inconclusive(err.Error())
+		return
+	}
+	newest := func(name string) uint64 {
+		cs, _ := ck.GetClientState(X.Ctx(), name)
+		st, _ := ck.GetClientConsensusState(X.Ctx(), name, cs.GetLatestHeight())
+		switch v := st.(type) {
+		case *bsctypes.ConsensusState:
+			return v.Timestamp
+		case *ethtypes.ConsensusState:
+			return v.Timestamp
+		}
+		return 0
+	}
+	setTP := func(name string, tp uint64) {
+		X.Exec(func(ctx sdk.Context) error {
+			cs, _ := ck.GetClientState(ctx, name)
+			switch v := cs.(type) {
+			case *bsctypes.ClientState:
+				v.TrustingPeriod = tp
+				ck.SetClientState(ctx, name, v)
+			case *ethtypes.ClientState:
+				v.TrustingPeriod = tp
+				ck.SetClientState(ctx, name, v)
+			}
+			return nil
+		})
+	}
+	offer := func(typ, name string) *vnet.Result {
+		if typ == exported.BSC {
+			h, signer := bf.next(rng)
+			if h == nil {
+				return nil
+			}
+			r := bf.deliver(X, h)
+			if r.OK() {
+				bf.p.Apply(h, signer)
+			}
+			return r
+		}
+		parent := ef.tree.Latest
+		h := synthChild(rng, parent)
+		// a recent header: dated just before the block it is submitted in (if that is after its parent)
+		if t := uint64(net.Now.Unix()) - uint64(rng.Intn(3)); t > parent.Time {
+			h.Time = t
+			h.Difficulty = model.ExpectedDifficulty(h.Time, parent)
+		}
+		r := ef.deliver(X, h)
+		if r.OK() {
+			ef.tree.Add(h)
+			ef.nodes = append(ef.nodes, h)
+		}
+		return r
+	}
+	for _, c := range []struct{ typ, name string }{{exported.BSC, "bsc-expiry"}, {exported.ETH, "eth-expiry"}} {
+		for round := 0; round < 4; round++ {
+			// period such that the client is active now, with some room
+			age := uint64(net.Now.Unix()) - newest(c.name)
+			tp := age + 200 + uint64(rng.Intn(2000))
+			setTP(c.name, tp)
+			if r := offer(c.typ, c.name); r != nil {
+				rec.Judge("ethlike-update/"+c.typ+"/active", r.OK())
+				rec.Count("ethlike-update-active-accepted", 1)
+				if !r.OK() {
+					rec.Violate("active-client-refused", map[string]string{"msg": "update", "client": c.typ}, r.Log, nil)
+					return
+				}
+			}
+			// move the block time past newest + period: by 1..3 s, by up to a minute, or far
+			var over uint64
+			switch rng.Intn(3) {
+			case 0:
+				over = uint64(1 + rng.Intn(3))
+			case 1:
+				over = uint64(1 + rng.Intn(60))
+			default:
+				over = uint64(1 + rng.Intn(1_000_000))
+			}
+			target := time.Unix(int64(newest(c.name)+tp+over), int64(rng.Intn(1_000_000_000))).UTC()
+			if !target.After(net.Now) {
+				rec.Inconclusive("expiry scenario: clock already past the target")
+				return
+			}
+			net.Now = target
+			before := newest(c.name)
+			if r := offer(c.typ, c.name); r != nil {
+				rec.Judge("ethlike-update/"+c.typ+"/expired", r.OK(), over <= 3)
+				rec.Count("ethlike-update-expired-refused", 1)
+				if r.OK() || newest(c.name) != before {
+					rec.Violate("expired-client-used", map[string]string{"msg": "update", "client": c.typ, "expired_by": map[bool]string{true: "1-3s", false: "more"}[over <= 3]},
+						fmt.Sprintf("%s client whose newest state (%d) is %d s older than its trusting period (%d s) accepted a header update at block time %s", c.typ, before, over, tp, net.Now), nil)
+					return
+				}
+			}
+		}
+	}
 }
 
 // ethLikeExpired: chain X gets an ETH and a BSC client of a synthetic Ethereum-style world that holds packet
@@ -339,6 +467,78 @@ func expiredScenario(w *world.World, rng *rand.Rand, rec *mon.Recorder) {
 					rec.Violate("active-client-refused", map[string]string{"msg": a.Kind}, a.Res.Log, w.Witness(12))
 				}
 			}
+		}
+	}
+}
+
+// expiredRelayScenario: see (b') in TestC14.
+func expiredRelayScenario(w *world.World, rng *rand.Rand, rec *mon.Recorder) {
+	cs := w.Net.Chains
+	A, B, C := cs[0], cs[1], cs[2]
+	send := func(tag string) *world.PacketRec {
+		seq := world.NextSend(A, A.Name, C.Name)
+		p := packettypes.NewPacket([]byte(tag), seq, A.Name, C.Name, B.Name, world.MockPort)
+		w.Do(&world.Action{Kind: "send-mock", On: A, Packet: &p, Exec: func(ctx sdk.Context) error { return A.App.TIBCKeeper.PacketKeeper.SendPacket(ctx, &p) }})
+		return w.Packets[world.PKey{Src: A.Name, Dst: C.Name, Seq: seq}]
+	}
+	hop := func(kind string, r *world.PacketRec, on, from *vnet.Chain) *world.Action {
+		if !w.Fresh(on, from) {
+			return nil
+		}
+		var a *world.Action
+		if kind == "recv" {
+			a = w.HonestRecv(r, on, from, on.Relayer)
+		} else {
+			a = w.HonestAck(r, on, from, on.Relayer)
+		}
+		return a
+	}
+	do := func(a *world.Action) bool {
+		if a == nil {
+			return false
+		}
+		w.Do(a)
+		return a.Res.OK()
+	}
+	// inside the trusting period: the whole relayed round trip works
+	p1 := send("relay-one")
+	active := []*world.Action{}
+	for _, st := range []struct {
+		kind     string
+		on, from *vnet.Chain
+	}{{"recv", B, A}, {"recv", C, B}} {
+		a := hop(st.kind, p1, st.on, st.from)
+		active = append(active, a)
+		if !do(a) {
+			rec.Violate("active-client-refused", map[string]string{"msg": st.kind, "route": "relayed"}, fmt.Sprint(a != nil && a.Res != nil && a.Res.Log != ""), w.Witness(12))
+			return
+		}
+		rec.Judge("active-relayed/"+st.kind, st.on.Name)
+		rec.Count("active-msg", 1)
+	}
+	// second packet forwarded by B; p1's acknowledgement passed back to B: both last hops stay pending
+	p2 := send("relay-two")
+	if !do(hop("recv", p2, B, A)) || !do(hop("ack", p1, B, C)) {
+		rec.Inconclusive("relayed expiry scenario could not prepare its packets")
+		return
+	}
+	recvC := hop("recv", p2, C, B)
+	ackA := hop("ack", p1, A, B)
+	if recvC == nil || ackA == nil {
+		rec.Inconclusive("relayed expiry scenario could not refresh the clients")
+		return
+	}
+	w.Net.Advance(vnet.DefaultClientCfg.TrustingPeriod + time.Duration(1+rng.Intn(1_000_000))*time.Second + time.Duration(rng.Intn(1_000_000_000)))
+	for _, a := range []*world.Action{recvC, ackA} {
+		w.Do(a)
+		rec.Judge("expired-relayed/"+a.Kind, a.Res.OK(), a.On.Name)
+		rec.Count("expired-msg", 1)
+		rec.Count("expired-relayed-msg", 1)
+		if a.Res.OK() {
+			rec.Violate("expired-client-used", map[string]string{"msg": a.Kind, "client": exported.Tendermint, "route": "relayed"},
+				fmt.Sprintf("%s accepted a relayed %s proven through its client of %s whose newest state is older than the trusting period", a.On.Name, a.Kind, B.Name), w.Witness(12))
+		} else if len(a.Res.Diff) != 0 {
+			rec.Violate("refused-msg-changed-state", map[string]string{"msg": a.Kind}, a.Res.Log, w.Witness(6))
 		}
 	}
 }
